@@ -25,7 +25,7 @@ outp = sys.argv[2] if len(sys.argv) > 2 else "GenAgg.lean"
 
 # order matters: a function may call the ones before it
 FNS = ["vsum", "vmean", "vmean_var", "vvar", "vstd", "vskew", "vmax", "vmin", "count_none", "vcov", "vcorr_pearson",
-       "count_valid", "vfirst", "vlast", "vcount_value", "vargmax", "vargmin"]
+       "count_valid", "vfirst", "vlast", "vcount_value", "vargmax", "vargmin", "count"]
 
 
 def ret_type(sig):
